@@ -5,6 +5,7 @@ dispatch table it installs, and a pickler whose dispatch_table attribute is set 
 copyreg.dispatch_table.  So "for any graph of non-opt-in classes the result equals standard pickle's" reduces to a
 statement about one map, for all keys (types are an uninterpreted sort with the predicates is_type / optin).
 """
+import ast
 import pickle
 import z3
 
@@ -229,13 +230,14 @@ def optin_lemmas(ex):
         fn = AbsClass('Fn', fields={}, methods={}, text='a function object found in a type __dict__')
         sig = AbsClass('Sig', fields={}, methods={}, attrs={'parameters': lambda I, o: VAbs('Params', o.key)}, text='inspect.signature(f)')
         params = AbsClass('Params', fields={}, methods={'values': lambda ex_, a, k: VAbs('ParamVals', a[0].key)}, text='signature.parameters')
+        pvals = AbsClass('ParamVals', fields={}, methods={'__list__': lambda ex_, a, k: a[0]}, text='signature.parameters.values(), also after list() / tuple()')
         names = AbsClass('NameList', fields={}, methods={'__contains__': lambda ex_, a, k: VBool(rp(a[0].key)) if isinstance(a[1], VStr) and a[1].s == 'remote'
                                                                   else (_ for _ in ()).throw(Undecided('membership of another name in the parameter names'))},
                          text='[p.name for p in signature.parameters.values()]')
         kinds = AbsClass('KindList', fields={}, methods={'__contains__': lambda ex_, a, k: VBool(vk(a[0].key)) if isinstance(a[1], VExt) and a[1].name.endswith('VAR_KEYWORD')
                                                                   else (_ for _ in ()).throw(Undecided('membership of another kind in the parameter kinds'))},
                          text='[p.kind for p in signature.parameters.values()]')
-        return {'Ty': ty, 'TyDict': tyd, 'Fn': fn, 'Sig': sig, 'Params': params, 'NameList': names, 'KindList': kinds}
+        return {'Ty': ty, 'TyDict': tyd, 'Fn': fn, 'Sig': sig, 'Params': params, 'ParamVals': pvals, 'NameList': names, 'KindList': kinds}
 
     def setup(ex_, env):
         I = ex_.interp
@@ -254,12 +256,14 @@ def optin_lemmas(ex):
         ex_.ghost['cnt_track'] = [lower(env['t'], ex_)]
         ex_.ghost['keyerror_forks'] = True
 
-        def comp(kind):
-            def hook(I2, e, fr):
-                s = I2.lookup('signature', fr)
-                return VAbs(kind, s.key)
-            return hook
-        ex_.ghost['__comp_hooks__'] = {(CHK, 'list', 0): comp('NameList'), (CHK, 'list', 1): comp('KindList')}
+        def comp_hook(I2, e, fr):
+            # [p.name for p in <the parameters>] / [p.kind for p in <the parameters>], however the parameters are reached
+            it = I2.eval(e.generators[0].iter, fr)
+            attr = e.elt.attr if isinstance(e.elt, ast.Attribute) else None
+            if not (isinstance(it, VAbs) and it.cls == 'ParamVals') or attr not in ('name', 'kind') or e.generators[0].ifs:
+                raise Undecided('a comprehension over the signature parameters other than their names / kinds')
+            return VAbs('NameList' if attr == 'name' else 'KindList', it.key)
+        ex_.ghost['__comp_hooks__'] = {(CHK, 'list', i): comp_hook for i in range(4)}
         # representation invariant of the metaclass: only types whose cached answer exists are registered
         tl = lower(env['t'], ex_)
         ex_.assume(z3.Implies(z3.Contains(ex_.heap[sup.addr].seq, z3.Unit(tl)), z3.Select(ex_.heap[cache.addr].dom, tl)))
